@@ -80,7 +80,7 @@ def run(ctx):
         # long random walks of I_Dedupe chosen by TLC (-simulate, weighted so that pulls/restarts are frequent)
         P2 = dict(P)
         P2["design"] = []
-        P2["gen"] = {"module": "Gen_Dedupe", "cfg": "Gen_sim.cfg", "simulate": {"num": 120, "depth": 200},
+        P2["gen"] = {"module": "Gen_Dedupe", "cfg": "Gen_sim.cfg", "simulate": {"num": 80, "depth": 200},
                      "thorough_simulate": {"num": 3000, "depth": 200}, "timeout": 600, "thorough_timeout": 1700}
         P2["n_random"] = (0, 0)
         pipeline.standard_check(ctx, P2)
